@@ -26,7 +26,7 @@ CHECKS["C05"] = dict(
     technique="Coq proof (simulation: write-through cache over a dictionary-like store refines the dictionary, for all histories/budgets) + differential execution of real backends against the dictionary spec inside Coq + AST source facts",
     text="Theorem cache_layer_refines_dict (Storage/LayerProofs.v): StorageBackendBase with a MemoryCache of any budget answers every operation of every history exactly as the dictionary keyed by (qualified name, arg hash), "
          "instantiated with the facts extracted from the current source (Gen/Facts*.v); prefix_scope makes f/f1 and #1/#10 safe. The filesystem (shared / separate metadata path, with / without cache) and memory backends are run on generated histories "
-         "and fixed scenarios; every answer, the cache's usage / resident set and store touches are compared with the model by vm_compute. Also: the same bytes memoized again after forget-everything / forget-function, custom metadata (plain and stored with the data) across re-memoizing the same result.",
+         "and fixed scenarios; every answer, the cache's usage / resident set and store touches are compared with the model by vm_compute. Also: the same bytes memoized again after forget-everything / forget-function, custom metadata (plain and stored with the data) across re-memoizing the same result, listings with a limit.",
     note="The data-source stack below the cache (directory tree emulation of versioned objects, metadata paths) is represented by its dictionary specification in the theorem and tied to the code by differential execution only. "
          "Hypothesis wfop: qualified names contain no '/'. Reads go through a freshly fetched memento, as the runner does.",
     ref="6/C05")
@@ -41,7 +41,7 @@ CHECKS["C19"] = dict(
     technique="Coq proof (read-only step never changes the stored dictionary; reads refine the dictionary) + audit-hook / tree-snapshot observation of real read-only, null-storage and null-runner configurations compared with the model",
     text="Theorem readonly_never_writes_and_reads_as_dict (all histories, any cache budget): memoize is skipped, forgets and metadata writes are rejected, reads answer as the dictionary, the stored state is unchanged. "
          "Implementation: pre-populated stores reopened read-only five ways (argument / config / registry, with / without cache) under random histories; every operation's file-system audit events and a full tree re-hash must show no mutation; "
-         "function-level call sequences through read-only, null-storage and null-runner clusters with execution traces. Also: separate metadata path, null runner over a populated store whose result data is lost, bodies that return on-disk / in-memory partitions through a read-only store (nothing may appear under the store while the result is alive), recursive forgetting of memoized exceptions, stores populated at one path and opened read-only at another.",
+         "function-level call sequences through read-only, null-storage and null-runner clusters with execution traces. Also: separate metadata path, null runner over a populated store whose result data is lost, bodies that return on-disk / in-memory partitions through a read-only store (nothing may appear under the store while the result is alive), recursive forgetting of memoized exceptions, stores populated at one path and opened read-only at another, a cluster configured read-only beside a live writable cluster on the same directory.",
     note="File-system mutation is observed via CPython audit events plus re-hashing the tree; writes bypassing both (e.g. from C extensions) would be missed. force_local() is outside the null-runner claim.",
     ref="6/C19")
 
@@ -59,7 +59,7 @@ CHECKS["C09"] = dict(
     text="Theorems over Runner/Threads.v for every schedule (list of thread ids) of any number of threads calling any keys on a cold or warm store: the body of a key runs at most once at every point, exactly once at the end if it was not memoized, never otherwise; "
          "two threads are never inside the critical section of one key; unless all are done some thread can move (flat calls). With every public MemoryCache method atomic (source fact: they hold the cache lock) the operations of all threads form one sequence and C06's invariant holds after any sequence. "
          "Implementation: real threads stopped at every method call on the cache / metadata source / data source, every function call in runner_local.py and every body start (plus every source line inside MemoryCache in line mode), "
-         "schedules explored systematically by increasing number of preemptions and sampled randomly; per-thread values, escaped exceptions, body counts and cache accounting are checked after every schedule. Also: every line of the per-call lock table function and of the link writer as scheduling points (exhaustive / bounded enumeration); the in-memory storage backend with every line of its methods a scheduling point (store listing after the threads = sequential); automatically versioned functions with nested calls right after another definition, every function call inside memento.py a scheduling point; readers vs writers of the cache at line granularity (every resident entry exactly once in the LRU list); a cluster described by a configuration dictionary first used by two threads at once.",
+         "schedules explored systematically by increasing number of preemptions and sampled randomly; per-thread values, escaped exceptions, body counts and cache accounting are checked after every schedule. Also: every line of the per-call lock table function and of the link writer as scheduling points (exhaustive / bounded enumeration); the in-memory storage backend with every line of its methods a scheduling point (store listing after the threads = sequential); automatically versioned functions with nested calls right after another definition, every function call inside memento.py a scheduling point; readers vs writers of the cache at line granularity (every resident entry exactly once in the LRU list); a cluster described by a configuration dictionary first used by two threads at once; two threads storing partition results of different calls (read back by a fresh backend).",
     note="Partial for: CPython's own switch points (the scheduler decides interleavings only at the listed points), nested memento calls / lock ordering along the call tree (progress theorem is for flat calls), and the blocked-thread heuristic "
          "(a granted thread that does not reach its next point within 30 ms is treated as waiting for a lock).",
     ref="6/C09")
@@ -133,7 +133,7 @@ CHECKS["C14"] = dict(
     technique="Coq proof (collected rule set = reachability in the reference graph, by soundness of saturation + completeness of a checked fixpoint; transitive / direct sets characterised) + differential runs over reference graphs (exhaustive for small N, random beyond) incl. enforcement of undeclared calls",
     text="Theorems over Version/Rules.v: for every program, once saturation is closed (a boolean evaluated on every case) the collected hash rules are exactly the rules reachable from the function; the reported transitive memento dependencies are exactly the memento functions reachable through memento functions and in-scope plain functions; "
          "the direct ones exactly those named in the body; no rule is collected twice. Implementation: ALL graphs on 1..2 (quick) / 1..3 (thorough) nodes of kinds {auto memento, pinned memento, plain} with every edge set (self loops, cycles), plus random graphs on 3-6 nodes with reference forms {bare, module attribute, alias, decorator-wrapped}; "
-         "transitive / direct sets, function rule keys and dependency-graph edges compared with the model and with plain reachability; hidden dynamic calls outside the closure must raise UndeclaredDependencyError directly and through every modifier clone, also after the target was once legitimately passed as an argument. Also: references inside the argument of a dereferenced call, explicitly versioned intermediate nodes, __init__-module packages, memento functions behind class-based decorators and functools.lru_cache, hidden edges exercised through call_batch and map_over_range.",
+         "transitive / direct sets, function rule keys and dependency-graph edges compared with the model and with plain reachability; hidden dynamic calls outside the closure must raise UndeclaredDependencyError directly and through every modifier clone, also after the target was once legitimately passed as an argument. Also: references inside the argument of a dereferenced call, explicitly versioned intermediate nodes, __init__-module packages, memento functions behind class-based decorators and functools.lru_cache, hidden edges exercised through call_batch and map_over_range, memento functions of another package named through their module.",
     note="Name resolution is performed by the implementation on live objects; the model receives resolved edges. The enforcement half is decided by the harness (the model fixes which calls are outside the closure).",
     ref="6/C14")
 
@@ -151,7 +151,7 @@ CHECKS["C01"] = dict(
          "for any version function under which equal versions imply equal behaviour and any history of editions and calls against a persistent store, the memoizing evaluator (look-ups at every memento function, nested results stored) returns exactly what un-memoized evaluation of the current edition returns (invariant over the store); "
          "fixed-width concatenation is injective; refutations: defaults not hashed, variable-width rule hashes. Source facts: defaults hashed, explicit versions hashed to the common width. "
          "Implementation: generated programs x edit histories (bodies, constants incl. swapped constants, defaults, keyword-only defaults, set / string-set / tuple constants, nested code, call edges, variable values, explicit versions) delivered to fresh interpreters against one persistent store and inside one interpreter (reload / exec / setattr); "
-         "every call compared with plain undecorated execution of the current edition (or UndeclaredDependencyError); every pair of editions: implementation's version-changed verdict = model's. Also: a second package (helpers of another package's memento function), nested scopes named like globals, builtins shadowed in the running process, object-valued defaults, lambda helpers, string literals inside generator expressions, same-named variables of two modules, helpers named only in the header (default value) of their user, dependencies declared by hand and re-bound in the running process, hidden calls of already memoized functions.",
+         "every call compared with plain undecorated execution of the current edition (or UndeclaredDependencyError); every pair of editions: implementation's version-changed verdict = model's. Also: a second package (helpers of another package's memento function), nested scopes named like globals, builtins shadowed in the running process, object-valued defaults, lambda helpers, string literals inside generator expressions, same-named variables of two modules, helpers named only in the header (default value) of their user, dependencies declared by hand and re-bound in the running process, hidden calls of already memoized functions, tuple-valued and integer-keyed module variables.",
     note="Body semantics is abstract in the model (any function of code, defaults and referenced values); sha256 truncation is treated as injective; symbols of the model are invocations (programs numbered topologically = recursion terminates). Histories are sampled.",
     ref="6/C01")
 
@@ -160,7 +160,7 @@ CHECKS["C13"] = dict(
     text="Theorems over Version/VCache.v: worlds map names to definitions with fresh stamps per executed definition; if no rule collected in an earlier world observes a change (variable value, identity of a plain / memento function, definedness), the from-scratch version is unchanged (reachability both ways + contents); "
          "for every history of Define / Alias / Query events, each query returns the from-scratch version of the current world (invariant J); refuted when memento-function rules only check 'still a memento function' (alias re-binding). Source facts: identity comparison in did_change; rule-less instances recompute. "
          "Implementation: generated programs x histories of 4-12 in-process events {redefine memento / plain, new default, rebind / mutate variable, define undefined name, memento <-> plain, rebind alias, clone, unregistered wrapper, change-then-clone} with version queries after every event, "
-         "each answer compared with a fresh interpreter's version of the program as it stands; successive from-scratch versions compared with the model's version verdict. Also: builtin names defined later, definition as None, lists mutated inside tuples, clones made right after a change, mutable module variables used as default values and mutated in place (source fact code_hash_refreshed).",
+         "each answer compared with a fresh interpreter's version of the program as it stands; successive from-scratch versions compared with the model's version verdict. Also: builtin names defined later, definition as None, lists mutated inside tuples, clones made right after a change, mutable module variables used as default values and mutated in place (source fact code_hash_refreshed), clones made before / after such a mutation.",
     note="Not modelled in Coq: the version computed while a function is being decorated, clones / unregistered instances (they share or lack rules), the cluster lock; the harness exercises the first two against the implementation. Rebinding a variable of an unsupported type to a supported one is outside the property (untracked variable).",
     ref="6/C13")
 
